@@ -26,6 +26,7 @@ TARGETS = ['ActiveFabric', 'FiberThreadEvent', 'InstrumentionWriter',
            'fresh:ActiveFabricSource', 'fresh:SourceThreadEvent', 'fresh:InstrumenationWriterClass',
            'fresh:SignalSource', 'fresh:ReturnStatusSource', 'ActiveObject', 'mixed']
 MIXED = ['ActiveFabric', 'InstrumentionWriter', 'FiberThreadEvent']     # 'mixed': the threads ask for different ones at once
+NOT_ASKED = type('NotAsked', (), {'__slots__': ()})()      # placeholder in a slot a thread did not ask for
 
 PLAN = {
   'quick': {'strata': {'concurrent-first-request': 10000}, 'wall_s': 300, 'chunk': 100, 'min_conclusive': 500},
@@ -83,7 +84,7 @@ def execute(sc, sched):
   def request(k=None):
     if target == 'mixed':
       # slot per kind; a thread asks for one kind (which one depends on the thread), the final request for all of them
-      return tuple(getattr(ao, n)() if k is None or (k + sc['threads']) % len(MIXED) == j else None for j, n in enumerate(MIXED))
+      return tuple(getattr(ao, n)() if k is None or (k + sc['threads']) % len(MIXED) == j else NOT_ASKED for j, n in enumerate(MIXED))
     if maker is not None:
       return (maker(),)
     a = ao.ActiveObject(name='x')
@@ -110,18 +111,18 @@ def execute(sc, sched):
   else:
     later = request()
     for slot in range(len(later)):
-      ids = set(id(o[slot]) for _, _, o in got if o[slot] is not None)
+      ids = set(id(o[slot]) for _, _, o in got if o[slot] is not NOT_ASKED)
       ids.add(id(later[slot]))
       if len(ids) != 1:
         res.violate('two-instances', {'kind': 'declared' if maker is None or not target.startswith('fresh:') else 'fresh'},
                     'target %s slot %d: %d distinct objects returned to %d threads (%s)' % (
                       target, slot, len(ids), sc['threads'],
-                      [(k, i, type(o[slot]).__name__, 'obj%d' % sorted(ids).index(id(o[slot]))) for k, i, o in got if o[slot] is not None]))
+                      [(k, i, type(o[slot]).__name__, 'obj%d' % sorted(ids).index(id(o[slot]))) for k, i, o in got if o[slot] is not NOT_ASKED]))
         break
     if res.outcome != 'violation' and maker is None:
       # the run event is one object wherever it is held: whatever the returned objects keep of its type is the shared one
       shared = ao.FiberThreadEvent()
-      held = [(type(x).__name__, a) for o in [g[2] for g in got] + [later] for x in o if x is not None and hasattr(x, '__dict__')
+      held = [(type(x).__name__, a) for o in [g[2] for g in got] + [later] for x in o if x is not NOT_ASKED and hasattr(x, '__dict__')
               for a, v in sorted(vars(x).items()) if type(v) is type(shared) and v is not shared]
       if held:
         res.violate('two-instances', {'kind': 'run-event-held'},
